@@ -322,4 +322,124 @@ theorem safe_component (cfg : SafeCfg) (tbl : Nat → Str) (digest name r : Str)
       exact inv_safe cfg _ (foldStr_inv cfg tbl ht cfg.case _
         (truncate_inv cfg digest _ hd (quoteName_inv cfg hos name _ hn hq)))
 
+/-! ### which inputs raise -/
+
+theorem hexChar_ne (n : Nat) : hexChar n ≠ 32 ∧ hexChar n ≠ 46 := by
+  unfold hexChar; split <;> omega
+
+theorem encChar_last (cfg : SafeCfg) (c : Nat) :
+    ∃ init l, encChar cfg c = init ++ [l] ∧ (l = 32 ↔ c = 32) ∧ (l = 46 ↔ c = 46) := by
+  unfold encChar
+  split
+  · split
+    · rename_i he
+      refine ⟨[37, hexChar (c / 16)], hexChar (c % 16), by simp [pct], ?_, ?_⟩
+      · constructor
+        · intro h; exact absurd h (hexChar_ne _).1
+        · intro h; subst h; simp [escapes, winChars] at he
+      · constructor
+        · intro h; exact absurd h (hexChar_ne _).2
+        · intro h; subst h; simp [escapes, winChars] at he
+    · exact ⟨[], c, by simp, Iff.rfl, Iff.rfl⟩
+  · rename_i hc
+    split
+    · rcases List.eq_nil_or_concat (utf8 c) with h | ⟨L, b, h⟩
+      · exact absurd h (utf8_ne_nil c)
+      · refine ⟨L.flatMap pct ++ [37, hexChar (b / 16)], hexChar (b % 16), ?_, ?_, ?_⟩
+        · rw [h]; simp [pct, List.flatMap_append]
+        · constructor
+          · intro h; exact absurd h (hexChar_ne _).1
+          · intro h; omega
+        · constructor
+          · intro h; exact absurd h (hexChar_ne _).2
+          · intro h; omega
+    · exact ⟨[], c, by simp, Iff.rfl, Iff.rfl⟩
+
+theorem quote_last (cfg : SafeCfg) (name : Str) :
+    (name.flatMap (encChar cfg) = [] ↔ name = []) ∧
+    ((name.flatMap (encChar cfg)).getLast? = some 32 ↔ name.getLast? = some 32) ∧
+    ((name.flatMap (encChar cfg)).getLast? = some 46 ↔ name.getLast? = some 46) := by
+  rcases List.eq_nil_or_concat name with h | ⟨L, c, h⟩
+  · subst h; simp
+  · subst h
+    obtain ⟨init, l, he, h32, h46⟩ := encChar_last cfg c
+    have hq : (L.concat c).flatMap (encChar cfg) = (L.flatMap (encChar cfg) ++ init) ++ [l] := by
+      simp [List.concat_eq_append, List.flatMap_append, he]
+    rw [hq]
+    simp only [List.getLast?_concat, List.concat_eq_append, Option.some.injEq]
+    refine ⟨by simp, h32, h46⟩
+
+/-- **error_branch** (DESIGN.md C15 T, section 7 row 17).  Exactly which inputs make
+`safe_filename` raise, for every configuration:
+* a lone surrogate in the name → `UnicodeEncodeError` (`filename.encode('utf8')`);
+* Windows mode and the empty name → `IndexError` (`new_filename[-1]`);
+* Windows mode and a name (other than "." / "..") whose last character is a space
+  or a dot → `ValueError`: `'{1:02X}'.format(str)` can never succeed, so the
+  "escape the trailing character" branch is in fact "raise".
+Nothing else raises; no path is produced on these inputs. -/
+theorem error_branch (cfg : SafeCfg) (tbl : Nat → Str) (digest name : Str) (e : PyExc) :
+    safeFilename cfg tbl digest name = .error e ↔
+      (name ≠ dot ∧ name ≠ dotdot) ∧
+      ((name.any isSurrogate = true ∧ e = .UnicodeEncodeError) ∨
+       (name.any isSurrogate = false ∧ cfg.os = .windows ∧
+         ((name = [] ∧ e = .IndexError) ∨
+          ((name.getLast? = some 32 ∨ name.getLast? = some 46) ∧ e = .ValueError)))) := by
+  by_cases hd : name = dot
+  · subst hd
+    cases hos : cfg.os <;> simp [safeFilename, quoteName, winTrailing, hos, lit, dot, dotdot]
+  by_cases hdd : name = dotdot
+  · subst hdd
+    cases hos : cfg.os <;> simp [safeFilename, quoteName, winTrailing, hos, lit, dot, dotdot]
+  by_cases hs : name.any isSurrogate = true
+  · have : safeFilename cfg tbl digest name = .error .UnicodeEncodeError := by
+      simp [safeFilename, quoteName, hd, hdd, hs]
+    rw [this]
+    simp [hd, hdd, hs]
+    exact eq_comm
+  · have hs' : name.any isSurrogate = false := by simpa using hs
+    obtain ⟨hnil, h32, h46⟩ := quote_last cfg name
+    have hq : quoteName cfg name = .ok (name.flatMap (encChar cfg)) := by
+      simp [quoteName, hd, hdd, hs]
+    by_cases hw : cfg.os = .windows
+    · cases hl : (name.flatMap (encChar cfg)).getLast? with
+      | none =>
+        have hn : name = [] := hnil.mp (List.getLast?_eq_none_iff.mp hl)
+        have : safeFilename cfg tbl digest name = .error .IndexError := by
+          simp [safeFilename, hq, winTrailing, hw, hl]
+        rw [this]
+        subst hn
+        simp [hw, dot, dotdot]
+        exact eq_comm
+      | some c =>
+        have hn : name ≠ [] := by
+          intro h; rw [h] at hl; simp at hl
+        by_cases hc : c = 32 ∨ c = 46
+        · have : safeFilename cfg tbl digest name = .error .ValueError := by
+            rcases hc with rfl | rfl <;> simp [safeFilename, hq, winTrailing, hw, hl]
+          rw [this]
+          have hlast : name.getLast? = some 32 ∨ name.getLast? = some 46 := by
+            rcases hc with rfl | rfl
+            · exact Or.inl (h32.mp hl)
+            · exact Or.inr (h46.mp hl)
+          simp [hd, hdd, hs', hw, hn, hlast]
+          exact eq_comm
+        · have hok : ∃ r, safeFilename cfg tbl digest name = .ok r := by
+            have h1 : c ≠ 32 := fun h => hc (Or.inl h)
+            have h2 : c ≠ 46 := fun h => hc (Or.inr h)
+            exact ⟨foldStr tbl cfg.case (truncate cfg digest (name.flatMap (encChar cfg))),
+              by simp [safeFilename, hq, winTrailing, hw, hl, h1, h2]⟩
+          obtain ⟨r, hr⟩ := hok
+          rw [hr]
+          have hlast : ¬(name.getLast? = some 32 ∨ name.getLast? = some 46) := by
+            rintro (h | h)
+            · have := h32.mpr h; rw [hl] at this; simp at this; exact hc (Or.inl this)
+            · have := h46.mpr h; rw [hl] at this; simp at this; exact hc (Or.inr this)
+          simp [hs', hn, hlast]
+    · have hok : ∃ r, safeFilename cfg tbl digest name = .ok r :=
+        ⟨foldStr tbl cfg.case (truncate cfg digest (name.flatMap (encChar cfg))),
+          by simp [safeFilename, hq, winTrailing, hw]⟩
+      obtain ⟨r, hr⟩ := hok
+      rw [hr]
+      simp [hw, hs']
+
 end Wpull.Path
